@@ -13,10 +13,21 @@
                     `expNext`), `retagOps_length`, `retagOps_glued`, `retagOps_spell`, `retagOps_keeps`
                     (only operator-name keywords change, and only into the name they spell),
                     `opsPlaced` / `retagOps_id` (when nothing changes), `retagOps_append`.
+  * `retagFns` (a name in front of `(` is a function name unless it is a node type): `retagFns_cons`
+                    (`retagFnTok`, `fnHere`), `retagFns_length`, `retagFns_glued`, `retagFns_spell`,
+                    `retagFns_keeps`, `retagFns_changes` (only axis-name and node-type keywords change,
+                    and only into the name they spell), `fnsPlaced` / `retagFns_id` /
+                    `fnsPlaced_of_retagFns_id` (when nothing changes).
+  * `dropTrailDots` (XPath's Number `Digits '.'`): `dropTrailDots_keep`, `dropTrailDots_drop` (one
+                    token at a time: `dotHere`, `piNext`), `dropTrailDots_length_le`,
+                    `dropTrailDots_sublist` (tokens are only dropped), `dotsPlaced` /
+                    `dropTrailDots_id` / `dotsPlaced_of_dropTrailDots_id` (when nothing changes).
+  * `lc.post` = `lc.dotPass ∘ lc.fnPass ∘ lc.opPass` (`post_eq`), `post_id`, `post_lexModel`,
+                    `post_lexSpec`, `post_length_le`, `post_sublist`.
   * `lex_spellPadded`, `lex_extra_space`, `lex_extra_space_zip`, `lex_spellAll`, `lex_spellGlue` : the
-                    same for `lex` (= `lexRaw` followed by `lc.retag`: `retagOps true` when
-                    `lc.opRule`, nothing otherwise); the `…_placed` forms: if no operator-name keyword
-                    stands where an operand is expected (or `lc.opRule = false`), exactly the tokens.
+                    same for `lex` (= `lexRaw` followed by `lc.post`: the three passes, each when its
+                    rule is on); the `…_placed` forms: if for every rule that is on no token stands
+                    where it applies (`opsPlaced`, `fnsPlaced`, `dotsPlaced`), exactly the tokens.
 -/
 import Xsel.Lex
 
@@ -612,15 +623,367 @@ theorem opsPlaced_of_no_opKw (exp : Bool) (ts : List LTok) (h : ∀ t ∈ ts, t.
     simp only [opsPlaced, Bool.and_eq_true, Bool.not_eq_true', Bool.and_eq_false_iff]
     exact ⟨Or.inl (h t (by simp)), ih _ (fun t ht => h t (by simp [ht]))⟩
 
-/-- what `lex` does to the token list of `lexRaw` -/
-def LexCfg.retag (lc : LexCfg) (ts : List LTok) : List LTok :=
-  if lc.opRule then retagOps true ts else ts
+/-! ### the function names: what `retagFns` does -/
+
+/-- an axis-name or node-type keyword: the keywords that can be (part of) a function name -/
+def Tok.isNameKw : Tok → Bool
+  | .kw k => !k.isOpName
+  | _ => false
+
+/-- the keyword `k` stands where a function name is read: directly in front of `(` (a node type only
+    after `:`, as the local part of a QName), or as the prefix in `k : name (` -/
+def fnHere (pc : Bool) (k : Kw) (ts : List LTok) : Bool :=
+  !k.isOpName && ((startsParen ts && (pc || !k.isNodeType)) || prefixOfCall ts)
+
+/-- what `retagFns` does to one token (`ts`: the tokens after it) -/
+def retagFnTok (pc : Bool) (t : LTok) (ts : List LTok) : LTok :=
+  match t.tok with
+  | .kw k => if fnHere pc k ts then ⟨.ncname k.chars, t.glued⟩ else t
+  | _ => t
+
+theorem retagFns_nil (pc : Bool) : retagFns pc [] = [] := by simp [retagFns]
+
+/-- `retagFns` token by token -/
+theorem retagFns_cons (pc : Bool) (t : LTok) (ts : List LTok) :
+    retagFns pc (t :: ts) = retagFnTok pc t ts :: retagFns (t.tok == .p .colon) ts := by
+  obtain ⟨tok, g⟩ := t
+  cases tok with
+  | kw k =>
+    simp only [retagFns, retagFnTok, fnHere]
+    congr 1
+    by_cases hk : k.isOpName = true
+    · simp [hk]
+    · by_cases hs : (startsParen ts && (pc || !k.isNodeType)) = true
+      · simp [hk, hs]
+      · by_cases hp : prefixOfCall ts = true <;> simp [hk, hs, hp]
+  | _ => simp [retagFns, retagFnTok]
+
+/-- no keyword stands where a function name is read -/
+def fnsPlaced : Bool → List LTok → Bool
+  | _, [] => true
+  | pc, t :: ts =>
+    (match t.tok with | .kw k => !fnHere pc k ts | _ => true) && fnsPlaced (t.tok == .p .colon) ts
+
+theorem retagFnTok_glued (pc : Bool) (t : LTok) (ts : List LTok) : (retagFnTok pc t ts).glued = t.glued := by
+  obtain ⟨tok, g⟩ := t
+  cases tok <;> simp [retagFnTok]
+  split <;> rfl
+
+/-- a retagged token is spelled as before -/
+theorem retagFnTok_spell (pc : Bool) (t : LTok) (ts : List LTok) :
+    (retagFnTok pc t ts).tok.spell = t.tok.spell := by
+  obtain ⟨tok, g⟩ := t
+  cases tok <;> simp [retagFnTok]
+  split <;> rfl
+
+/-- only axis-name and node-type keywords are retagged … -/
+theorem retagFnTok_of_not_nameKw (pc : Bool) (t : LTok) (ts : List LTok) (h : t.tok.isNameKw = false) :
+    retagFnTok pc t ts = t := by
+  obtain ⟨tok, g⟩ := t
+  cases tok <;> simp_all [retagFnTok, Tok.isNameKw, fnHere]
+
+theorem retagFnTok_kw (pc : Bool) (t : LTok) (ts : List LTok) (k : Kw) (h : t.tok = .kw k) :
+    retagFnTok pc t ts = if fnHere pc k ts then ⟨.ncname k.chars, t.glued⟩ else t := by
+  obtain ⟨tok, g⟩ := t
+  simp only at h
+  subst h
+  rfl
+
+theorem retagFns_length (pc : Bool) (ts : List LTok) : (retagFns pc ts).length = ts.length := by
+  induction ts generalizing pc with
+  | nil => simp [retagFns_nil]
+  | cons t ts ih => simp [retagFns_cons, ih]
+
+/-- the adjacency flags are kept -/
+theorem retagFns_glued (pc : Bool) (ts : List LTok) :
+    (retagFns pc ts).map (·.glued) = ts.map (·.glued) := by
+  induction ts generalizing pc with
+  | nil => simp [retagFns_nil]
+  | cons t ts ih => simp [retagFns_cons, ih, retagFnTok_glued]
+
+/-- the text of every token is kept -/
+theorem retagFns_spell (pc : Bool) (ts : List LTok) :
+    (retagFns pc ts).map (·.tok.spell) = ts.map (·.tok.spell) := by
+  induction ts generalizing pc with
+  | nil => simp [retagFns_nil]
+  | cons t ts ih => simp [retagFns_cons, ih, retagFnTok_spell]
+
+/-- every token that is not an axis-name or node-type keyword is kept, at its position -/
+theorem retagFns_keeps (pc : Bool) (ts : List LTok) (i : Nat) (t : LTok) (hi : ts[i]? = some t)
+    (h : t.tok.isNameKw = false) : (retagFns pc ts)[i]? = some t := by
+  induction ts generalizing pc i with
+  | nil => simp at hi
+  | cons a ts ih =>
+    rw [retagFns_cons]
+    cases i with
+    | zero =>
+      simp only [List.getElem?_cons_zero, Option.some.injEq] at hi ⊢
+      subst hi
+      exact retagFnTok_of_not_nameKw pc a ts h
+    | succ i =>
+      simp only [List.getElem?_cons_succ] at hi ⊢
+      exact ih _ i hi
+
+/-- a token that changes was an axis-name or node-type keyword and becomes the `ncname` of the same text -/
+theorem retagFns_changes (pc : Bool) (ts : List LTok) (i : Nat) (t t' : LTok) (hi : ts[i]? = some t)
+    (hi' : (retagFns pc ts)[i]? = some t') (hne : t' ≠ t) :
+    ∃ k, k.isOpName = false ∧ t.tok = .kw k ∧ t' = ⟨.ncname k.chars, t.glued⟩ := by
+  induction ts generalizing pc i with
+  | nil => simp at hi
+  | cons a ts ih =>
+    rw [retagFns_cons] at hi'
+    cases i with
+    | zero =>
+      simp only [List.getElem?_cons_zero, Option.some.injEq] at hi hi'
+      subst hi hi'
+      obtain ⟨tok, g⟩ := a
+      cases tok with
+      | kw k =>
+        rw [retagFnTok_kw pc _ ts k rfl] at hne ⊢
+        cases hf : fnHere pc k ts with
+        | false => simp [hf] at hne
+        | true =>
+          refine ⟨k, ?_, rfl, by simp⟩
+          simp only [fnHere, Bool.and_eq_true, Bool.not_eq_true'] at hf
+          exact hf.1
+      | _ => exact absurd (retagFnTok_of_not_nameKw pc _ ts rfl) hne
+    | succ i =>
+      simp only [List.getElem?_cons_succ] at hi hi'
+      exact ih _ i hi hi'
+
+/-- **when `retagFns` does nothing** -/
+theorem retagFns_id (pc : Bool) (ts : List LTok) (h : fnsPlaced pc ts = true) : retagFns pc ts = ts := by
+  induction ts generalizing pc with
+  | nil => exact retagFns_nil pc
+  | cons t ts ih =>
+    simp only [fnsPlaced, Bool.and_eq_true] at h
+    rw [retagFns_cons, ih _ h.2]
+    obtain ⟨tok, g⟩ := t
+    cases tok with
+    | kw k =>
+      have h1 : fnHere pc k ts = false := by simpa using h.1
+      rw [retagFnTok_kw pc _ ts k rfl, h1]
+      rfl
+    | _ => rfl
+
+/-- … and conversely -/
+theorem fnsPlaced_of_retagFns_id (pc : Bool) (ts : List LTok) (h : retagFns pc ts = ts) :
+    fnsPlaced pc ts = true := by
+  induction ts generalizing pc with
+  | nil => rfl
+  | cons t ts ih =>
+    rw [retagFns_cons] at h
+    simp only [List.cons.injEq] at h
+    simp only [fnsPlaced, Bool.and_eq_true]
+    refine ⟨?_, ih _ h.2⟩
+    obtain ⟨tok, g⟩ := t
+    cases tok with
+    | kw k =>
+      have h1 := h.1
+      rw [retagFnTok_kw pc _ ts k rfl] at h1
+      cases hf : fnHere pc k ts with
+      | false => simp [hf]
+      | true => simp [hf] at h1
+    | _ => rfl
+
+/-- token lists without axis-name and node-type keywords are never changed -/
+theorem fnsPlaced_of_no_nameKw (pc : Bool) (ts : List LTok) (h : ∀ t ∈ ts, t.tok.isNameKw = false) :
+    fnsPlaced pc ts = true := by
+  induction ts generalizing pc with
+  | nil => rfl
+  | cons t ts ih =>
+    simp only [fnsPlaced, Bool.and_eq_true]
+    refine ⟨?_, ih _ (fun t ht => h t (by simp [ht]))⟩
+    have ht := h t (by simp)
+    obtain ⟨tok, g⟩ := t
+    cases tok with
+    | kw k =>
+      simp only [Tok.isNameKw, Bool.not_eq_false'] at ht
+      simp [fnHere, ht]
+    | _ => rfl
+
+/-- … nor are lists without `(` -/
+theorem startsParen_eq (ts : List LTok) :
+    startsParen ts = (match ts with | n :: _ => n.tok == .p .lparen | [] => false) := by
+  cases ts with
+  | nil => rfl
+  | cons n r =>
+    obtain ⟨tok, g⟩ := n
+    cases tok with
+    | p x => cases x <;> simp [startsParen]
+    | _ => simp [startsParen]
+
+/-! ### `Digits '.'`: what `dropTrailDots` does -/
+
+/-- the token `t` (followed by `ts`) is a `.` that `dropTrailDots` drops: directly after integer-part
+    digits (`pi`) and not directly before digits -/
+def dotHere (pi : Bool) (t : LTok) (ts : List LTok) : Bool :=
+  pi && t.tok == .p .dot && t.glued && !gluedDigitsNext ts
+
+/-- the flag `pi` after the kept token `t`: digits, unless they are the fraction after a `.` -/
+def piNext (pdot : Bool) (t : LTok) : Bool := isDigitsTok t.tok && !(pdot && t.glued)
+
+theorem dropTrailDots_nil (pi pdot : Bool) : dropTrailDots pi pdot [] = [] := by simp [dropTrailDots]
+
+/-- a token that is kept -/
+theorem dropTrailDots_keep (pi pdot : Bool) (t : LTok) (ts : List LTok) (h : dotHere pi t ts = false) :
+    dropTrailDots pi pdot (t :: ts) = t :: dropTrailDots (piNext pdot t) (t.tok == .p .dot) ts := by
+  unfold dotHere at h
+  cases ts with
+  | nil => rw [dropTrailDots.eq_2, if_neg (by simp [h])]; rfl
+  | cons n r => rw [dropTrailDots.eq_3, if_neg (by simp [h])]; rfl
+
+/-- a `.` that is dropped: the next token is no longer adjacent to its predecessor, and the walk goes
+    on as from the start -/
+theorem dropTrailDots_drop (pi pdot : Bool) (t : LTok) (ts : List LTok) (h : dotHere pi t ts = true) :
+    dropTrailDots pi pdot (t :: ts) = dropTrailDots false false (unglueHead ts) := by
+  unfold dotHere at h
+  cases ts with
+  | nil => rw [dropTrailDots.eq_2, if_pos h]; rfl
+  | cons n r =>
+    rw [dropTrailDots.eq_3, if_pos h]
+    have hk : dotHere false ⟨n.tok, false⟩ r = false := rfl
+    simp only [unglueHead]
+    rw [dropTrailDots_keep false false _ r hk]
+    simp [piNext]
+
+/-- no `.` would be dropped -/
+def dotsPlaced : Bool → Bool → List LTok → Bool
+  | _, _, [] => true
+  | pi, pdot, t :: ts => !dotHere pi t ts && dotsPlaced (piNext pdot t) (t.tok == .p .dot) ts
+
+theorem unglueHead_length (ts : List LTok) : (unglueHead ts).length = ts.length := by
+  cases ts <;> rfl
+
+/-- tokens are only dropped -/
+theorem dropTrailDots_length_le (pi pdot : Bool) (ts : List LTok) :
+    (dropTrailDots pi pdot ts).length ≤ ts.length := by
+  suffices h : ∀ (n : Nat) (ts : List LTok), ts.length ≤ n → ∀ pi pdot,
+      (dropTrailDots pi pdot ts).length ≤ ts.length from h ts.length ts (Nat.le_refl _) pi pdot
+  intro n
+  induction n with
+  | zero =>
+    intro ts hl pi pdot
+    cases ts with
+    | nil => simp [dropTrailDots_nil]
+    | cons t ts => simp at hl
+  | succ n ih =>
+    intro ts hl pi pdot
+    cases ts with
+    | nil => simp [dropTrailDots_nil]
+    | cons t ts =>
+      have hl' : ts.length ≤ n := by simpa using hl
+      cases h : dotHere pi t ts with
+      | false =>
+        rw [dropTrailDots_keep pi pdot t ts h]
+        simpa using ih ts hl' _ _
+      | true =>
+        rw [dropTrailDots_drop pi pdot t ts h]
+        have := ih (unglueHead ts) (by rw [unglueHead_length]; exact hl') false false
+        rw [unglueHead_length] at this
+        simp only [List.length_cons]
+        omega
+
+/-- **when `dropTrailDots` does nothing** -/
+theorem dropTrailDots_id (pi pdot : Bool) (ts : List LTok) (h : dotsPlaced pi pdot ts = true) :
+    dropTrailDots pi pdot ts = ts := by
+  induction ts generalizing pi pdot with
+  | nil => exact dropTrailDots_nil pi pdot
+  | cons t ts ih =>
+    simp only [dotsPlaced, Bool.and_eq_true, Bool.not_eq_true'] at h
+    rw [dropTrailDots_keep pi pdot t ts h.1, ih _ _ h.2]
+
+/-- … and conversely: a dropped `.` makes the list shorter -/
+theorem dotsPlaced_of_dropTrailDots_id (pi pdot : Bool) (ts : List LTok)
+    (h : dropTrailDots pi pdot ts = ts) : dotsPlaced pi pdot ts = true := by
+  induction ts generalizing pi pdot with
+  | nil => rfl
+  | cons t ts ih =>
+    cases hd : dotHere pi t ts with
+    | true =>
+      rw [dropTrailDots_drop pi pdot t ts hd] at h
+      have h1 := dropTrailDots_length_le false false (unglueHead ts)
+      rw [h, unglueHead_length] at h1
+      exact absurd h1 (by simp)
+    | false =>
+      rw [dropTrailDots_keep pi pdot t ts hd] at h
+      simp only [List.cons.injEq, true_and] at h
+      simp only [dotsPlaced, hd, Bool.not_false, Bool.true_and]
+      exact ih _ _ h
+
+/-- the length is kept exactly when nothing is dropped -/
+theorem dropTrailDots_length_eq_iff (pi pdot : Bool) (ts : List LTok) :
+    (dropTrailDots pi pdot ts).length = ts.length ↔ dotsPlaced pi pdot ts = true := by
+  constructor
+  · induction ts generalizing pi pdot with
+    | nil => intro _; rfl
+    | cons t ts ih =>
+      intro h
+      cases hd : dotHere pi t ts with
+      | true =>
+        rw [dropTrailDots_drop pi pdot t ts hd] at h
+        have h1 := dropTrailDots_length_le false false (unglueHead ts)
+        rw [h, unglueHead_length] at h1
+        exact absurd h1 (by simp)
+      | false =>
+        rw [dropTrailDots_keep pi pdot t ts hd] at h
+        simp only [dotsPlaced, hd, Bool.not_false, Bool.true_and]
+        exact ih _ _ (by simpa using h)
+  · intro h; rw [dropTrailDots_id pi pdot ts h]
+
+/-- only `.` tokens that directly follow their predecessor can be dropped: a list without them is
+    never changed -/
+theorem dotsPlaced_of_no_glued_dot (pi pdot : Bool) (ts : List LTok)
+    (h : ∀ t ∈ ts, (t.tok == .p .dot && t.glued) = false) : dotsPlaced pi pdot ts = true := by
+  induction ts generalizing pi pdot with
+  | nil => rfl
+  | cons t ts ih =>
+    simp only [dotsPlaced, Bool.and_eq_true, Bool.not_eq_true']
+    refine ⟨?_, ih _ _ (fun t ht => h t (by simp [ht]))⟩
+    have ht := h t (by simp)
+    unfold dotHere
+    rw [Bool.and_assoc pi, ht]
+    simp
+
+/-- what is kept is kept in order, with its text: the tokens after `dropTrailDots` are a sublist of the
+    tokens before it -/
+theorem dropTrailDots_sublist (pi pdot : Bool) (ts : List LTok) :
+    ((dropTrailDots pi pdot ts).map (·.tok)).Sublist (ts.map (·.tok)) := by
+  suffices h : ∀ (n : Nat) (ts : List LTok), ts.length ≤ n → ∀ pi pdot,
+      ((dropTrailDots pi pdot ts).map (·.tok)).Sublist (ts.map (·.tok)) from
+    h ts.length ts (Nat.le_refl _) pi pdot
+  intro n
+  induction n with
+  | zero =>
+    intro ts hl pi pdot
+    cases ts with
+    | nil => simp [dropTrailDots_nil]
+    | cons t ts => simp at hl
+  | succ n ih =>
+    intro ts hl pi pdot
+    cases ts with
+    | nil => simp [dropTrailDots_nil]
+    | cons t ts =>
+      have hl' : ts.length ≤ n := by simpa using hl
+      cases h : dotHere pi t ts with
+      | false =>
+        rw [dropTrailDots_keep pi pdot t ts h]
+        simpa using ih ts hl' _ _
+      | true =>
+        rw [dropTrailDots_drop pi pdot t ts h]
+        have := ih (unglueHead ts) (by rw [unglueHead_length]; exact hl') false false
+        have hu : (unglueHead ts).map (·.tok) = ts.map (·.tok) := by cases ts <;> rfl
+        rw [hu] at this
+        simp only [List.map_cons]
+        exact List.Sublist.cons _ this
+
+/-! ### the three passes together: `lc.post` -/
 
 theorem lex_eq (lc : LexCfg) (cs : Chars) :
-    lex lc cs = match lexRaw lc cs with | .ok ts => .ok (lc.retag ts) | r => r := rfl
+    lex lc cs = match lexRaw lc cs with | .ok ts => .ok (lc.post ts) | r => r := rfl
 
 theorem lex_of_lexRaw {lc : LexCfg} {cs : Chars} {ts : List LTok} (h : lexRaw lc cs = .ok ts) :
-    lex lc cs = .ok (lc.retag ts) := by
+    lex lc cs = .ok (lc.post ts) := by
   rw [lex_eq, h]
 
 theorem lex_err_of_lexRaw {lc : LexCfg} {cs : Chars} (h : lexRaw lc cs = .err) : lex lc cs = .err := by
@@ -630,41 +993,117 @@ theorem lex_unsup_of_lexRaw {lc : LexCfg} {cs : Chars} (h : lexRaw lc cs = .unsu
     lex lc cs = .unsup := by
   rw [lex_eq, h]
 
-theorem retag_of_opRule_false {lc : LexCfg} (h : lc.opRule = false) (ts : List LTok) :
-    lc.retag ts = ts := by
-  simp [LexCfg.retag, h]
+/-- the three passes, each behind its switch -/
+def LexCfg.opPass (lc : LexCfg) (ts : List LTok) : List LTok := if lc.opRule then retagOps true ts else ts
+def LexCfg.fnPass (lc : LexCfg) (ts : List LTok) : List LTok := if lc.fnRule then retagFns false ts else ts
+def LexCfg.dotPass (lc : LexCfg) (ts : List LTok) : List LTok :=
+  if lc.dotRule then dropTrailDots false false ts else ts
 
-theorem retag_of_opRule_true {lc : LexCfg} (h : lc.opRule = true) (ts : List LTok) :
-    lc.retag ts = retagOps true ts := by
-  simp [LexCfg.retag, h]
+/-- the passes one after the other -/
+theorem post_eq (lc : LexCfg) (ts : List LTok) : lc.post ts = lc.dotPass (lc.fnPass (lc.opPass ts)) := rfl
 
-/-- nothing changes when the rule is off or no operator name is misplaced -/
-theorem retag_of_placed {lc : LexCfg} {ts : List LTok} (h : lc.opRule = true → opsPlaced true ts = true) :
-    lc.retag ts = ts := by
-  unfold LexCfg.retag
+theorem opPass_id {lc : LexCfg} {ts : List LTok} (h : lc.opRule = true → opsPlaced true ts = true) :
+    lc.opPass ts = ts := by
+  unfold LexCfg.opPass
   split
   · next ho => exact retagOps_id true ts (h ho)
   · rfl
 
-theorem retag_length (lc : LexCfg) (ts : List LTok) : (lc.retag ts).length = ts.length := by
-  unfold LexCfg.retag; split
+theorem fnPass_id {lc : LexCfg} {ts : List LTok} (h : lc.fnRule = true → fnsPlaced false ts = true) :
+    lc.fnPass ts = ts := by
+  unfold LexCfg.fnPass
+  split
+  · next ho => exact retagFns_id false ts (h ho)
+  · rfl
+
+theorem dotPass_id {lc : LexCfg} {ts : List LTok} (h : lc.dotRule = true → dotsPlaced false false ts = true) :
+    lc.dotPass ts = ts := by
+  unfold LexCfg.dotPass
+  split
+  · next ho => exact dropTrailDots_id false false ts (h ho)
+  · rfl
+
+theorem opPass_length (lc : LexCfg) (ts : List LTok) : (lc.opPass ts).length = ts.length := by
+  unfold LexCfg.opPass; split
   · exact retagOps_length true ts
   · rfl
 
-theorem retag_glued (lc : LexCfg) (ts : List LTok) : (lc.retag ts).map (·.glued) = ts.map (·.glued) := by
-  unfold LexCfg.retag; split
+theorem fnPass_length (lc : LexCfg) (ts : List LTok) : (lc.fnPass ts).length = ts.length := by
+  unfold LexCfg.fnPass; split
+  · exact retagFns_length false ts
+  · rfl
+
+theorem dotPass_length_le (lc : LexCfg) (ts : List LTok) : (lc.dotPass ts).length ≤ ts.length := by
+  unfold LexCfg.dotPass; split
+  · exact dropTrailDots_length_le false false ts
+  · exact Nat.le_refl _
+
+theorem opPass_glued (lc : LexCfg) (ts : List LTok) : (lc.opPass ts).map (·.glued) = ts.map (·.glued) := by
+  unfold LexCfg.opPass; split
   · exact retagOps_glued true ts
   · rfl
 
-theorem retag_spell (lc : LexCfg) (ts : List LTok) :
-    (lc.retag ts).map (·.tok.spell) = ts.map (·.tok.spell) := by
-  unfold LexCfg.retag; split
+theorem fnPass_glued (lc : LexCfg) (ts : List LTok) : (lc.fnPass ts).map (·.glued) = ts.map (·.glued) := by
+  unfold LexCfg.fnPass; split
+  · exact retagFns_glued false ts
+  · rfl
+
+theorem opPass_spell (lc : LexCfg) (ts : List LTok) :
+    (lc.opPass ts).map (·.tok.spell) = ts.map (·.tok.spell) := by
+  unfold LexCfg.opPass; split
   · exact retagOps_spell true ts
   · rfl
 
-theorem retag_lexModel (ts : List LTok) : lexModel.retag ts = retagOps true ts := rfl
+theorem fnPass_spell (lc : LexCfg) (ts : List LTok) :
+    (lc.fnPass ts).map (·.tok.spell) = ts.map (·.tok.spell) := by
+  unfold LexCfg.fnPass; split
+  · exact retagFns_spell false ts
+  · rfl
 
-theorem retag_lexSpec (ts : List LTok) : lexSpec.retag ts = ts := rfl
+theorem dotPass_sublist (lc : LexCfg) (ts : List LTok) :
+    ((lc.dotPass ts).map (·.tok)).Sublist (ts.map (·.tok)) := by
+  unfold LexCfg.dotPass; split
+  · exact dropTrailDots_sublist false false ts
+  · exact List.Sublist.refl _
+
+/-- **nothing changes** when, for every rule that is on, no token stands where the rule applies (the
+    later passes then see the list the earlier ones left unchanged) -/
+theorem post_id (lc : LexCfg) (ts : List LTok)
+    (ho : lc.opRule = true → opsPlaced true ts = true)
+    (hf : lc.fnRule = true → fnsPlaced false ts = true)
+    (hd : lc.dotRule = true → dotsPlaced false false ts = true) : lc.post ts = ts := by
+  rw [post_eq, opPass_id ho, fnPass_id hf, dotPass_id hd]
+
+theorem post_of_rules_off {lc : LexCfg} (ho : lc.opRule = false) (hf : lc.fnRule = false)
+    (hd : lc.dotRule = false) (ts : List LTok) : lc.post ts = ts :=
+  post_id lc ts (by simp [ho]) (by simp [hf]) (by simp [hd])
+
+/-- when no `.` is dropped (or the rule is off), `lc.post` keeps length, adjacency flags and the text of
+    every token -/
+theorem post_of_dotRule_false {lc : LexCfg} (hd : lc.dotRule = false) (ts : List LTok) :
+    lc.post ts = lc.fnPass (lc.opPass ts) := by
+  rw [post_eq]; unfold LexCfg.dotPass; simp [hd]
+
+/-- xsel's lexer: the three passes of `grammar.newLexer` -/
+theorem post_lexModel (ts : List LTok) :
+    lexModel.post ts = dropTrailDots false false (retagFns false (retagOps true ts)) := rfl
+
+/-- XPath's rules are in the specification's parser: its lexer is the tokeniser -/
+theorem post_lexSpec (ts : List LTok) : lexSpec.post ts = ts := rfl
+
+/-- the passes only drop tokens -/
+theorem post_length_le (lc : LexCfg) (ts : List LTok) : (lc.post ts).length ≤ ts.length := by
+  rw [post_eq]
+  have h1 := dotPass_length_le lc (lc.fnPass (lc.opPass ts))
+  rw [fnPass_length, opPass_length] at h1
+  exact h1
+
+/-- … and keep the text of every token they keep, in order -/
+theorem post_sublist (lc : LexCfg) (ts : List LTok) :
+    ((lc.post ts).map (·.tok.spell)).Sublist (ts.map (·.tok.spell)) := by
+  rw [post_eq, ← opPass_spell lc ts, ← fnPass_spell lc (lc.opPass ts)]
+  have := (dotPass_sublist lc (lc.fnPass (lc.opPass ts))).map Tok.spell
+  simpa [List.map_map, Function.comp_def] using this
 
 /-! ### the whole input -/
 
@@ -762,19 +1201,21 @@ theorem lexRaw_spellPadded (lc : LexCfg) (items : List (Chars × Tok)) (trail : 
   have := lexAll_padded lc trail items ((spellPadded items trail).length + 1) false [] h (Nat.le_refl _)
   simpa [lexRaw] using this
 
-/-- the same for `lex`: the operator names are then retagged (`lc.retag`: `retagOps true` when
-    `lc.opRule`, nothing otherwise) -/
+/-- the same for `lex`: the passes that are on are then applied (`lc.post`: operator names, function
+    names, trailing dots) -/
 theorem lex_spellPadded (lc : LexCfg) (items : List (Chars × Tok)) (trail : Chars)
     (h : padOk lc items trail = true) :
-    lex lc (spellPadded items trail) = .ok (lc.retag (padToks false items)) :=
+    lex lc (spellPadded items trail) = .ok (lc.post (padToks false items)) :=
   lex_of_lexRaw (lexRaw_spellPadded lc items trail h)
 
-/-- … exactly the tokens, when no operator name stands where an operand is expected -/
+/-- … exactly the tokens, when for every rule that is on no token stands where it applies -/
 theorem lex_spellPadded_placed (lc : LexCfg) (items : List (Chars × Tok)) (trail : Chars)
     (h : padOk lc items trail = true)
-    (hp : lc.opRule = true → opsPlaced true (padToks false items) = true) :
+    (ho : lc.opRule = true → opsPlaced true (padToks false items) = true)
+    (hf : lc.fnRule = true → fnsPlaced false (padToks false items) = true)
+    (hd : lc.dotRule = true → dotsPlaced false false (padToks false items) = true) :
     lex lc (spellPadded items trail) = .ok (padToks false items) := by
-  rw [lex_spellPadded lc items trail h, retag_of_placed hp]
+  rw [lex_spellPadded lc items trail h, post_id lc _ ho hf hd]
 
 /-! ### corollaries -/
 
@@ -833,19 +1274,21 @@ theorem lexRaw_extra_space (lc : LexCfg) (items : List (Chars × Tok)) (trail : 
   rw [lexRaw_spellPadded lc items trail (padOk_of_nonempty lc trail htr items h),
     padToks_of_nonempty items (fun it hi => (h it hi).1)]
 
-/-- the same for `lex` (operator names retagged when `lc.opRule`) -/
+/-- the same for `lex` (followed by the passes `lc.post`) -/
 theorem lex_extra_space (lc : LexCfg) (items : List (Chars × Tok)) (trail : Chars)
     (h : ∀ it ∈ items, it.1 ≠ [] ∧ (∀ c ∈ it.1, isSpace lc c = true) ∧ tokOk lc it.2 = true)
     (htr : ∀ c ∈ trail, isSpace lc c = true) :
-    lex lc (spellPadded items trail) = .ok (lc.retag (items.map (fun it => ⟨it.2, false⟩))) :=
+    lex lc (spellPadded items trail) = .ok (lc.post (items.map (fun it => ⟨it.2, false⟩))) :=
   lex_of_lexRaw (lexRaw_extra_space lc items trail h htr)
 
 theorem lex_extra_space_placed (lc : LexCfg) (items : List (Chars × Tok)) (trail : Chars)
     (h : ∀ it ∈ items, it.1 ≠ [] ∧ (∀ c ∈ it.1, isSpace lc c = true) ∧ tokOk lc it.2 = true)
     (htr : ∀ c ∈ trail, isSpace lc c = true)
-    (hp : lc.opRule = true → opsPlaced true (items.map (fun it => (⟨it.2, false⟩ : LTok))) = true) :
+    (ho : lc.opRule = true → opsPlaced true (items.map (fun it => (⟨it.2, false⟩ : LTok))) = true)
+    (hf : lc.fnRule = true → fnsPlaced false (items.map (fun it => (⟨it.2, false⟩ : LTok))) = true)
+    (hd : lc.dotRule = true → dotsPlaced false false (items.map (fun it => (⟨it.2, false⟩ : LTok))) = true) :
     lex lc (spellPadded items trail) = .ok (items.map (fun it => ⟨it.2, false⟩)) := by
-  rw [lex_extra_space lc items trail h htr, retag_of_placed hp]
+  rw [lex_extra_space lc items trail h htr, post_id lc _ ho hf hd]
 
 /-- the same with the runs and the tokens as two lists -/
 theorem lexRaw_extra_space_zip (lc : LexCfg) (ws : List Chars) (ts : List Tok) (trail : Chars)
@@ -863,21 +1306,23 @@ theorem lexRaw_extra_space_zip (lc : LexCfg) (ws : List Chars) (ts : List Tok) (
     have h1 := hws it.1 (List.of_mem_zip hi).1
     exact ⟨h1.1, h1.2, hts it.2 (List.of_mem_zip hi).2⟩
 
-/-- the same for `lex` (operator names retagged when `lc.opRule`) -/
+/-- the same for `lex` (followed by the passes `lc.post`) -/
 theorem lex_extra_space_zip (lc : LexCfg) (ws : List Chars) (ts : List Tok) (trail : Chars)
     (hlen : ws.length = ts.length)
     (hws : ∀ w ∈ ws, w ≠ [] ∧ ∀ c ∈ w, isSpace lc c = true)
     (hts : ∀ t ∈ ts, tokOk lc t = true) (htr : ∀ c ∈ trail, isSpace lc c = true) :
-    lex lc (spellPadded (ws.zip ts) trail) = .ok (lc.retag (ts.map (fun t => ⟨t, false⟩))) :=
+    lex lc (spellPadded (ws.zip ts) trail) = .ok (lc.post (ts.map (fun t => ⟨t, false⟩))) :=
   lex_of_lexRaw (lexRaw_extra_space_zip lc ws ts trail hlen hws hts htr)
 
 theorem lex_extra_space_zip_placed (lc : LexCfg) (ws : List Chars) (ts : List Tok) (trail : Chars)
     (hlen : ws.length = ts.length)
     (hws : ∀ w ∈ ws, w ≠ [] ∧ ∀ c ∈ w, isSpace lc c = true)
     (hts : ∀ t ∈ ts, tokOk lc t = true) (htr : ∀ c ∈ trail, isSpace lc c = true)
-    (hp : lc.opRule = true → opsPlaced true (ts.map (fun t => (⟨t, false⟩ : LTok))) = true) :
+    (ho : lc.opRule = true → opsPlaced true (ts.map (fun t => (⟨t, false⟩ : LTok))) = true)
+    (hf : lc.fnRule = true → fnsPlaced false (ts.map (fun t => (⟨t, false⟩ : LTok))) = true)
+    (hd : lc.dotRule = true → dotsPlaced false false (ts.map (fun t => (⟨t, false⟩ : LTok))) = true) :
     lex lc (spellPadded (ws.zip ts) trail) = .ok (ts.map (fun t => ⟨t, false⟩)) := by
-  rw [lex_extra_space_zip lc ws ts trail hlen hws hts htr, retag_of_placed hp]
+  rw [lex_extra_space_zip lc ws ts trail hlen hws hts htr, post_id lc _ ho hf hd]
 
 theorem spellAll_eq (ts : List Tok) : spellAll ts = spellPadded (ts.map (fun t => ([' '], t))) [] := by
   simp [spellAll, spellPadded, List.flatMap_map]
@@ -897,15 +1342,17 @@ theorem lexRaw_spellAll (lc : LexCfg) (ts : List Tok) (h : ∀ t ∈ ts, tokOk l
     cases lc with
     | mk u x => cases x <;> rfl
 
-/-- the same for `lex` (operator names retagged when `lc.opRule`) -/
+/-- the same for `lex` (followed by the passes `lc.post`) -/
 theorem lex_spellAll (lc : LexCfg) (ts : List Tok) (h : ∀ t ∈ ts, tokOk lc t = true) :
-    lex lc (spellAll ts) = .ok (lc.retag (ts.map (fun t => ⟨t, false⟩))) :=
+    lex lc (spellAll ts) = .ok (lc.post (ts.map (fun t => ⟨t, false⟩))) :=
   lex_of_lexRaw (lexRaw_spellAll lc ts h)
 
 theorem lex_spellAll_placed (lc : LexCfg) (ts : List Tok) (h : ∀ t ∈ ts, tokOk lc t = true)
-    (hp : lc.opRule = true → opsPlaced true (ts.map (fun t => (⟨t, false⟩ : LTok))) = true) :
+    (ho : lc.opRule = true → opsPlaced true (ts.map (fun t => (⟨t, false⟩ : LTok))) = true)
+    (hf : lc.fnRule = true → fnsPlaced false (ts.map (fun t => (⟨t, false⟩ : LTok))) = true)
+    (hd : lc.dotRule = true → dotsPlaced false false (ts.map (fun t => (⟨t, false⟩ : LTok))) = true) :
     lex lc (spellAll ts) = .ok (ts.map (fun t => ⟨t, false⟩)) := by
-  rw [lex_spellAll lc ts h, retag_of_placed hp]
+  rw [lex_spellAll lc ts h, post_id lc _ ho hf hd]
 
 /-! ### glued tokens -/
 
@@ -1008,16 +1455,18 @@ theorem lexRaw_spellGlue (lc : LexCfg) (items : List (Bool × Tok)) (h : glueAll
     rw [this]
     simp
 
-/-- the same for `lex` (operator names retagged when `lc.opRule`) -/
+/-- the same for `lex` (followed by the passes `lc.post`) -/
 theorem lex_spellGlue (lc : LexCfg) (items : List (Bool × Tok)) (h : glueAllOk lc items = true) :
-    lex lc (spellGlue items) = .ok (lc.retag (glueToks items)) :=
+    lex lc (spellGlue items) = .ok (lc.post (glueToks items)) :=
   lex_of_lexRaw (lexRaw_spellGlue lc items h)
 
-/-- … exactly the tokens, when no operator name stands where an operand is expected -/
+/-- … exactly the tokens, when for every rule that is on no token stands where it applies -/
 theorem lex_spellGlue_placed (lc : LexCfg) (items : List (Bool × Tok)) (h : glueAllOk lc items = true)
-    (hp : lc.opRule = true → opsPlaced true (glueToks items) = true) :
+    (ho : lc.opRule = true → opsPlaced true (glueToks items) = true)
+    (hf : lc.fnRule = true → fnsPlaced false (glueToks items) = true)
+    (hd : lc.dotRule = true → dotsPlaced false false (glueToks items) = true) :
     lex lc (spellGlue items) = .ok (glueToks items) := by
-  rw [lex_spellGlue lc items h, retag_of_placed hp]
+  rw [lex_spellGlue lc items h, post_id lc _ ho hf hd]
 
 /-- punctuation that no following text can extend: everything but `/ : . < >` -/
 theorem glueOk_punct (x : Punct) (t' : Tok)
@@ -1045,6 +1494,9 @@ theorem glueOk_lit (dq : Bool) (s : Chars) (t' : Tok) : glueOk (.lit dq s) t' = 
 
 /-! ### examples (non-vacuity) -/
 
+-- concrete inputs are evaluated by the kernel (`decide +kernel`)
+deriving instance DecidableEq for LexRes
+
 example : tokOk lexModel (.ncname ['a','-','1']) = true := by decide
 example : tokOk lexModel (.ncname ['_','a']) = false := by decide
 example : tokOk lexSpec (.ncname ['_','a']) = true := by decide
@@ -1062,7 +1514,7 @@ example : lex lexModel (spellAll [.ncname ['a'], .p .slash, .kw (.axis .child), 
       .p .star, .digits ['1','0'], .lit false ['x'], .var ['n']]) =
     .ok [⟨.ncname ['a'], false⟩, ⟨.p .slash, false⟩, ⟨.kw (.axis .child), false⟩,
       ⟨.p .coloncolon, false⟩, ⟨.p .star, false⟩, ⟨.digits ['1','0'], false⟩,
-      ⟨.lit false ['x'], false⟩, ⟨.var ['n'], false⟩] := rfl
+      ⟨.lit false ['x'], false⟩, ⟨.var ['n'], false⟩] := by decide +kernel
 
 /-- the same through the theorem -/
 example : lex lexSpec (spellAll [.ncname ['a'], .p .slash, .kw (.axis .child), .p .coloncolon,
@@ -1076,7 +1528,7 @@ example : lex lexModel (spellAll [.ncname ['a'], .p .slash, .kw (.axis .child), 
       .p .star, .digits ['1','0'], .lit false ['x'], .var ['n']]) =
     .ok ([.ncname ['a'], .p .slash, .kw (.axis .child), .p .coloncolon,
       .p .star, .digits ['1','0'], .lit false ['x'], .var ['n']].map (fun t => ⟨t, false⟩)) :=
-  lex_spellAll_placed lexModel _ (by decide) (by decide)
+  lex_spellAll_placed lexModel _ (by decide) (by decide) (by decide) (by decide)
 
 /-- `child::a[@b='x']//c` without any white space -/
 example : spellGlue [(false, .kw (.axis .child)), (false, .p .coloncolon), (false, .ncname ['a']),
@@ -1090,25 +1542,25 @@ example : glueAllOk lexModel [(false, .kw (.axis .child)), (false, .p .coloncolo
       (false, .ncname ['c'])] = true := by decide
 
 /-- what `tokOk`/`glueOk` exclude is really read differently -/
-example : lex lexModel "/ /".toList = .ok [⟨.p .slash, false⟩, ⟨.p .slash, false⟩] := rfl
-example : lex lexModel "//".toList = .ok [⟨.p .dslash, false⟩] := rfl
+example : lex lexModel "/ /".toList = .ok [⟨.p .slash, false⟩, ⟨.p .slash, false⟩] := by decide +kernel
+example : lex lexModel "//".toList = .ok [⟨.p .dslash, false⟩] := by decide +kernel
 example : glueOk (.p .slash) (.p .slash) = false := by decide
 example : glueOk (.ncname ['a']) (.digits ['1']) = false := by decide
-example : lex lexModel "a 1".toList = .ok [⟨.ncname ['a'], false⟩, ⟨.digits ['1'], false⟩] := rfl
-example : lex lexModel "a1".toList = .ok [⟨.ncname ['a', '1'], false⟩] := rfl
+example : lex lexModel "a 1".toList = .ok [⟨.ncname ['a'], false⟩, ⟨.digits ['1'], false⟩] := by decide +kernel
+example : lex lexModel "a1".toList = .ok [⟨.ncname ['a', '1'], false⟩] := by decide +kernel
 /-- runs of tabs, line ends and blanks, trailing white space -/
 example : lex lexModel (spellPadded [(['\t', '\n'], .ncname ['a']), ([' ', '\r'], .p .slash),
       (['\r'], .ncname ['b'])] [' ', ' ']) =
     .ok [⟨.ncname ['a'], false⟩, ⟨.p .slash, false⟩, ⟨.ncname ['b'], false⟩] :=
-  lex_extra_space_placed lexModel _ _ (by decide) (by decide) (by decide)
+  lex_extra_space_placed lexModel _ _ (by decide) (by decide) (by decide) (by decide) (by decide)
 /-- U+00A0 is white space for Go's `unicode.IsSpace` (a lexer with `xmlSpace = false`), not for XML:
     neither xsel nor XPath 1.0 separates tokens with it -/
-example : lex ⟨false, false, true⟩ (spellPadded [(['\t', '\n'], .ncname ['a']), ([' ', '\u00a0'], .p .slash),
+example : lex ⟨false, false, true, true, true⟩ (spellPadded [(['\t', '\n'], .ncname ['a']), ([' ', '\u00a0'], .p .slash),
       (['\r'], .ncname ['b'])] [' ', ' ']) =
     .ok [⟨.ncname ['a'], false⟩, ⟨.p .slash, false⟩, ⟨.ncname ['b'], false⟩] :=
-  lex_extra_space_placed _ _ _ (by decide) (by decide) (by decide)
-example : lex lexSpec ['a', '\u00a0', 'b'] = .err := rfl
-example : lex lexModel ['a', '\u00a0', 'b'] = .err := rfl
+  lex_extra_space_placed _ _ _ (by decide) (by decide) (by decide) (by decide) (by decide)
+example : lex lexSpec ['a', '\u00a0', 'b'] = .err := by decide +kernel
+example : lex lexModel ['a', '\u00a0', 'b'] = .err := by decide +kernel
 /-- empty runs: `a/b` has glued tokens -/
 example : lex lexSpec (spellPadded [([], .ncname ['a']), ([], .p .slash), ([], .ncname ['b'])] []) =
     .ok [⟨.ncname ['a'], false⟩, ⟨.p .slash, true⟩, ⟨.ncname ['b'], true⟩] :=
@@ -1116,29 +1568,74 @@ example : lex lexSpec (spellPadded [([], .ncname ['a']), ([], .p .slash), ([], .
 /-- the operator names: always keyword tokens for `lexRaw`; for `lex lexModel` names where an operand
     is expected (at the start, after an operator, after `/`, `::`, `@`, `(`, `[`, `,`), operators
     after an operand; `lexSpec` leaves the decision to the parser -/
-example : lexRaw lexModel " div".toList = .ok [⟨.kw .div, false⟩] := rfl
-example : lex lexModel " div".toList = .ok [⟨.ncname ['d','i','v'], false⟩] := rfl
-example : lex lexSpec " div".toList = .ok [⟨.kw .div, false⟩] := rfl
+example : lexRaw lexModel " div".toList = .ok [⟨.kw .div, false⟩] := by decide +kernel
+example : lex lexModel " div".toList = .ok [⟨.ncname ['d','i','v'], false⟩] := by decide +kernel
+example : lex lexSpec " div".toList = .ok [⟨.kw .div, false⟩] := by decide +kernel
 example : lex lexModel "a div div".toList =
-    .ok [⟨.ncname ['a'], false⟩, ⟨.kw .div, false⟩, ⟨.ncname ['d','i','v'], false⟩] := rfl
+    .ok [⟨.ncname ['a'], false⟩, ⟨.kw .div, false⟩, ⟨.ncname ['d','i','v'], false⟩] := by decide +kernel
 example : lex lexModel "div div div div div".toList =
     .ok [⟨.ncname ['d','i','v'], false⟩, ⟨.kw .div, false⟩, ⟨.ncname ['d','i','v'], false⟩,
-         ⟨.kw .div, false⟩, ⟨.ncname ['d','i','v'], false⟩] := rfl
+         ⟨.kw .div, false⟩, ⟨.ncname ['d','i','v'], false⟩] := by decide +kernel
 example : lex lexModel "//or/@and[mod]".toList =
     .ok [⟨.p .dslash, false⟩, ⟨.ncname ['o','r'], true⟩, ⟨.p .slash, true⟩, ⟨.p .at, true⟩,
          ⟨.ncname ['a','n','d'], true⟩, ⟨.p .lbrack, true⟩, ⟨.ncname ['m','o','d'], true⟩,
-         ⟨.p .rbrack, true⟩] := rfl
+         ⟨.p .rbrack, true⟩] := by decide +kernel
 /-- `*` toggles like an operator name: `* * *` is name test, times, name test; so after `* *` an
     operator name is a name, after `*` an operator -/
 example : lex lexModel "* * mod".toList =
-    .ok [⟨.p .star, false⟩, ⟨.p .star, false⟩, ⟨.ncname ['m','o','d'], false⟩] := rfl
+    .ok [⟨.p .star, false⟩, ⟨.p .star, false⟩, ⟨.ncname ['m','o','d'], false⟩] := by decide +kernel
 example : lex lexModel "* mod *".toList =
-    .ok [⟨.p .star, false⟩, ⟨.kw .mod, false⟩, ⟨.p .star, false⟩] := rfl
+    .ok [⟨.p .star, false⟩, ⟨.kw .mod, false⟩, ⟨.p .star, false⟩] := by decide +kernel
 /-- through the theorems: the general form says what is retagged, `opsPlaced` when nothing is -/
 example : lex lexModel (spellAll [.kw .div, .kw .div, .kw .div]) =
     .ok [⟨.ncname ['d','i','v'], false⟩, ⟨.kw .div, false⟩, ⟨.ncname ['d','i','v'], false⟩] :=
   lex_spellAll lexModel _ (by decide)
 example : opsPlaced true [⟨.kw .div, false⟩] = false ∧
     opsPlaced true [⟨.ncname ['a'], false⟩, ⟨.kw .div, false⟩, ⟨.ncname ['b'], false⟩] = true := by decide
+/-- the function names: an axis-name or node-type keyword in front of `(` (a node type only after `:`) or
+    as the prefix of `k:name(` is a name for `lex lexModel`; `lexRaw` and `lex lexSpec` keep the keyword -/
+example : lexRaw lexModel "self()".toList = .ok [⟨.kw (.axis .self), false⟩, ⟨.p .lparen, true⟩, ⟨.p .rparen, true⟩] := by
+  decide +kernel
+example : lex lexSpec "self()".toList = .ok [⟨.kw (.axis .self), false⟩, ⟨.p .lparen, true⟩, ⟨.p .rparen, true⟩] := by
+  decide +kernel
+example : lex lexModel "self()".toList =
+    .ok [⟨.ncname ['s','e','l','f'], false⟩, ⟨.p .lparen, true⟩, ⟨.p .rparen, true⟩] := by decide +kernel
+example : lex lexModel "text()".toList = .ok [⟨.kw .text, false⟩, ⟨.p .lparen, true⟩, ⟨.p .rparen, true⟩] := by
+  decide +kernel
+example : lex lexModel "p:text()".toList =
+    .ok [⟨.ncname ['p'], false⟩, ⟨.p .colon, true⟩, ⟨.ncname ['t','e','x','t'], true⟩, ⟨.p .lparen, true⟩,
+         ⟨.p .rparen, true⟩] := by decide +kernel
+example : lex lexModel "child:node()".toList =
+    .ok [⟨.ncname ['c','h','i','l','d'], false⟩, ⟨.p .colon, true⟩, ⟨.ncname ['n','o','d','e'], true⟩,
+         ⟨.p .lparen, true⟩, ⟨.p .rparen, true⟩] := by decide +kernel
+example : lex lexModel "child::node()".toList =
+    .ok [⟨.kw (.axis .child), false⟩, ⟨.p .coloncolon, true⟩, ⟨.kw .node, true⟩, ⟨.p .lparen, true⟩,
+         ⟨.p .rparen, true⟩] := by decide +kernel
+example : fnsPlaced false [⟨.kw (.axis .self), false⟩, ⟨.p .lparen, true⟩] = false ∧
+    fnsPlaced false [⟨.kw .text, false⟩, ⟨.p .lparen, true⟩] = true ∧
+    fnsPlaced false [⟨.kw (.axis .self), false⟩, ⟨.p .coloncolon, true⟩, ⟨.kw .text, true⟩, ⟨.p .lparen, true⟩] = true := by
+  decide
+/-- the trailing dots: `1.` is `1`; the `.` of `1.5`, of `1 .` and the one after a fraction stay; the
+    token after a dropped `.` is no longer adjacent -/
+example : lexRaw lexModel "1.".toList = .ok [⟨.digits ['1'], false⟩, ⟨.p .dot, true⟩] := by decide +kernel
+example : lex lexSpec "1.".toList = .ok [⟨.digits ['1'], false⟩, ⟨.p .dot, true⟩] := by decide +kernel
+example : lex lexModel "1.".toList = .ok [⟨.digits ['1'], false⟩] := by decide +kernel
+example : lex lexModel "1.5".toList = .ok [⟨.digits ['1'], false⟩, ⟨.p .dot, true⟩, ⟨.digits ['5'], true⟩] := by
+  decide +kernel
+example : lex lexModel "1 .".toList = .ok [⟨.digits ['1'], false⟩, ⟨.p .dot, false⟩] := by decide +kernel
+example : lex lexModel ".5.".toList = .ok [⟨.p .dot, false⟩, ⟨.digits ['5'], true⟩, ⟨.p .dot, true⟩] := by
+  decide +kernel
+example : lex lexModel "1.]".toList = .ok [⟨.digits ['1'], false⟩, ⟨.p .rbrack, false⟩] := by decide +kernel
+example : lex lexModel "1..".toList = .ok [⟨.digits ['1'], false⟩, ⟨.p .dotdot, true⟩] := by decide +kernel
+example : dotsPlaced false false [⟨.digits ['1'], false⟩, ⟨.p .dot, true⟩] = false ∧
+    dotsPlaced false false [⟨.digits ['1'], false⟩, ⟨.p .dot, true⟩, ⟨.digits ['5'], true⟩] = true ∧
+    dotsPlaced false false [⟨.p .dot, false⟩, ⟨.digits ['5'], true⟩, ⟨.p .dot, true⟩] = true := by decide
+/-- through the theorems -/
+example : lex lexModel (spellGlue [(true, .kw (.axis .self)), (false, .p .lparen), (false, .p .rparen)]) =
+    .ok [⟨.ncname ['s','e','l','f'], false⟩, ⟨.p .lparen, true⟩, ⟨.p .rparen, true⟩] :=
+  lex_spellGlue lexModel _ (by decide)
+example : lex lexModel (spellGlue [(true, .digits ['1']), (false, .p .dot), (true, .p .plus)]) =
+    .ok [⟨.digits ['1'], false⟩, ⟨.p .plus, false⟩] :=
+  lex_spellGlue lexModel _ (by decide)
 
 end Xsel.Syntax
